@@ -45,9 +45,16 @@ RULE = ("program = faulty flow (3-7 statements from: assignment, action send, ma
         "with action/flow arguments; match in when/or-when/else), two errors in one candidate scan. Every program also with a longer "
         "history: error only in the K-th (2nd/3rd) instance of the activated flow, the walk to the error repeated after it, observers "
         "ahead of the faulty flow or reacting through a sub-flow; loops with break/continue; start by a complete raw StartFlow. "
+        "WAVE 6: statements whose error is raised OUTSIDE every try block of the state machine and leaves run_to_completion (action-event validation "
+        "when the outgoing UMIM event is built: wrong-typed / missing / reserved parameters; bad default value expressions of flow parameters / return "
+        "members and StartFlow events no instance can be created from; bad expressions in @meta decorator tags, evaluated when the flow finishes), external "
+        "events run_to_completion rejects, several events per process_events call (also 9-30 harmless events in front of the rejected one), each with "
+        "activated handler flows that answer every `match ColangError()` with a marker event. "
         "non-trivial = the erroneous statement was "
         "reached (an exception was raised inside the interpreter) or the case is an immediate finish/fail of an activated flow.")
 TRUSTED_BASE = [
+    "translator harness/translate/c10_classes.py (AST of the except branch of process_events, of the ColangError constructors of statemachine.py and of the "
+    "class-test guard; the tree's own parser + get_event_from_element for the reference event of `match ColangError()`)",
     "translator harness/translate/c10.py (element classification table; AST check of slide()'s dispatch)",
     "correspondence harness harness/props/C10.py (monkeypatched slide / _flow_head_changed / eval_expression / "
     "_compute_event_matching_score recorders) + Lean driver Drive/C10.lean",
@@ -55,6 +62,10 @@ TRUSTED_BASE = [
     "and on the translator's RProg (wait kinds, late-death analysis, catchAt) in harness/impl/c10_round.py; a 40*(elements+10) per-call backstop remains",
 ]
 ASSUMPTIONS = [
+    "conversion step of process_events (Models/ProcessEvents.lean): escaped_error_is_reported is a theorem about the loop over an ARBITRARY run_to_completion "
+    "and an observer machine that applies the class test isinstance(ref_event, type(event)); that the real matcher lets a waiting `match ColangError()` head match "
+    "once the class test passes is matching (C04/C09), checked here by the oracle (every converted error makes every total reporting handler react) and by the "
+    "driver op C10.convert on the classes observed at run time; the class data (Generated/C10Classes.lean) rests on the translator harness/translate/c10_classes.py",
     "whole-round termination (T2 run_terminates) is a theorem about the token abstraction RoundMachine, not about CoreVM; programs the verified "
     "checker roundRanked rejects are outside the hypothesis (no termination verdict for them)",
     "the ErrContain FRAGMENT does not model the recursive child/action clean-up of _abort_flow/_finish_flow nor forked-head recursion; "
@@ -477,7 +488,7 @@ LATE_ESCAPES = {"send-contextupdate-bad": ["send ContextUpdate(data=3)"],
                 "startflow-context-params": ['send StartFlow(flow_id="helper_p", flow_instance_uid="u1", context=1)']}
 
 
-def escape_case(rng, kind, names, first, relap, bad_input, batch=False):
+def escape_case(rng, kind, names, first, relap, bad_input, batch=False, pad=0):
     """faulty flow whose erroneous statement raises outside every try block of the state machine (ESCAPE_KINDS / LATE_ESCAPES), or
     a well-behaved flow next to an external event that run_to_completion rejects (kind None); handler flows `names` observe
     ColangError; the observers of the external events have an action pending in the very round in which the error is raised"""
@@ -507,6 +518,14 @@ def escape_case(rng, kind, names, first, relap, bad_input, batch=False):
             else:
                 merged.append(e)
         script = merged
+    if pad:
+        # a LONG call: `pad` harmless events in front of the event that makes run_to_completion raise, all handed to one process_events
+        # call (the events counter of the call is well above zero when the conversion happens)
+        for k, x in enumerate(script):
+            if k > 0:
+                script[k] = [{"type": "Pad"} for _ in range(pad)] + (x if isinstance(x, list) else [x])
+        if "Pad" not in ev_names:
+            ev_names.append("Pad")
     src = hd.handler_src(tr.REPO, names) + ["@active", "flow faulty"] + ["  " + l for l in body] + [""]
     src += ERR_FLOWS.get(kind, [])
     src += observer_flows(ev_names, rng.choice(["direct", "direct", "sub"]))
@@ -521,8 +540,10 @@ def escape_case(rng, kind, names, first, relap, bad_input, batch=False):
         meta["relap"] = True
     if bad_input is not None:
         meta["bad_inputs"] = sorted({e["type"] for x in script for e in (x if isinstance(x, list) else [x]) if e["type"] in BAD_INPUT_TYPES})
-    if batch:
+    if batch or pad:
         meta["batch"] = True
+    if pad:
+        meta["pad"] = pad
     return {"kind": "prog", "src": "\n".join(src) + "\n", "events": script, "meta": meta}
 
 
@@ -541,6 +562,9 @@ def gen_escape_cases(rng, tier):
             for k in range(2):
                 out.append(escape_case(rng, None, ESCAPE_HANDLER_SETS[(j + 2 * k + r) % n], first=False, relap=bool(k), bad_input=bi))
             out.append(escape_case(rng, None, ESCAPE_HANDLER_SETS[(j + r) % 5], first=False, relap=True, bad_input=bi, batch=True))
+            out.append(escape_case(rng, None, ESCAPE_HANDLER_SETS[(j + r + 1) % 5], first=False, relap=False, bad_input=bi, pad=rng.choice([9, 14, 30])))
+        for kind in rng.sample(kinds, 4):
+            out.append(escape_case(rng, kind, ESCAPE_HANDLER_SETS[rng.randrange(5)], first=False, relap=False, bad_input=None, pad=rng.choice([9, 14, 30])))
     return out
 
 
@@ -1606,6 +1630,10 @@ def oracle(case, obs):
             if "Seen" + name not in c["out"]:
                 why = f" (run_to_completion raised {c['rtc_exc']})" if c["rtc_exc"] else ""
                 return f"observer flow did not react to event {name}{why}: outgoing {c['out'][:6]}"
+            if c.get("events") and c["out"].count("Seen" + name) < c["events"].count(name):
+                # several events of one call: each is processed in a round of its own, the activated observer is waiting again every time
+                return (f"observer flow reacted {c['out'].count('Seen' + name)} time(s) to the {c['events'].count(name)} {name} events handed to one "
+                        f"process_events call (run_to_completion raised {c['rtc_exc']})")
     if meta.get("expect_error") and meta["kind"] != "abort":
         if sum(c["colang_errors"] for c in obs["calls"]) == 0:
             return f"no ColangError event was produced for the injected {meta['kind']} error"
@@ -1753,6 +1781,8 @@ def tags(case, obs):
                 t.append("converted-error-observed-by-handler")
         if meta.get("bad_inputs"):
             t.append("bad-input:" + "+".join(meta["bad_inputs"]))
+        if meta.get("pad"):
+            t.append("events-in-call:" + ("10-19" if meta["pad"] < 18 else "20+"))
         if meta.get("escape"):
             t.append("family:escape")
         for c in obs["calls"]:
